@@ -1,3 +1,4 @@
+import json
 """L1 scenarios: the real Downloader.download() on a scripted transport vs the Lean model
 `download`, plus the C05/C12/C16 monitors on the implementation's observations."""
 import os
@@ -394,6 +395,37 @@ def monitor_c05(sc, real, files):
                         out.append(("placeholder-variant-unchecked",
                                     f"file {'/'.join(vj['path'])} declared {w.size} reported obtained through the "
                                     f"size-0 placeholder variant with {sizes[-1]} bytes on disk"))
+    # a file reported *downloaded* must have been served at least one acceptable response: complete, not aborted, of the
+    # declared size when one is declared, announcing nothing else ("a response that announces a different length,
+    # delivers fewer or more bytes, aborts mid-stream or is an HTTP error is never accepted")
+    if not sc.get("shared"):
+        reported = {json.dumps(vj["path"]): vj for vj in real["downloaded"]}
+        for f in files:
+            mine = [variant_json(v) for v in f.compression_variants.values()]
+            hit = [vj for vj in mine if json.dumps(vj["path"]) in reported and vj in real["downloaded"]]
+            if not hit:
+                continue
+            ok_any = False
+            for v in f.compression_variants.values():
+                declared = v.size
+                for pth in v.get_all_paths():
+                    key = str(pth)
+                    served = sc["scripts"].get(key, [])[:real["reqs"].get(key, 0)]
+                    for r in served:
+                        # (no declared size: "only if a transfer ended without error" - what the server announced is then
+                        # not compared with what it delivered by the tool; over real HTTP the transport does that, C18)
+                        if r.kind == "ok" and not r.abort and (declared == 0 or len(r.data) == declared) and \
+                                (r.announced is None or r.announced == 0 or declared == 0 or r.announced == declared):
+                            ok_any = True
+                        # accepted without reading the body: the announcement equals the local copy (size and date) and the
+                        # declared size - the "unmodified" branch, which also lists the variant as obtained
+                        loc = next((e for e in sc["fs"] if e["path"] == key), None)
+                        if r.kind == "ok" and r.announced and loc is not None and loc["size"] == r.announced and \
+                                loc.get("mtime") == r.date and (declared == 0 or r.announced == declared):
+                            ok_any = True
+            if not ok_any:
+                out.append(("accepted-unacceptable-response", f"file {'/'.join(hit[0]['path'])} reported downloaded although none of the "
+                            f"responses served for its URLs was complete and of the declared size"))
     # final state: every reported alias has the declared size (targets are disjoint in these scenarios)
     rfs = {e["path"]: e for e in real["fs"]}
     for vj in real["downloaded"]:
